@@ -112,10 +112,9 @@ proof fn lemma_c08_earlier(a: Hit, b: Hit) // [C08]
 // (6) among identical titles the higher rating comes first: the same matches and title words, so only slot 6 differs
 proof fn lemma_c08_rating_decides(a: Hit, b: Hit) // [C08]
     requires slots_ok(a), slots_ok(b), a.rmatches@ == b.rmatches@, a.title.words@ == b.title.words@, a.rating > b.rating,
-        a.rating <= 0x7fff_ffff_ffff_ffff,   // the property bounds ratings by 2^31; above 2^63 the cast wraps
     ensures desc_lt(a.scores.0, b.scores.0),
 {
-    lemma_rslot(a.rating, a.rating); lemma_rslot(b.rating, b.rating);
+    lemma_rslot(b.rating, a.rating);
     lemma_lt_decides(a.scores.0, b.scores.0, 6);
 }
 // (7) at equal rating the title 'u' outranks 'u x' (query 'u'): the same matches (the matched word is the first word of both titles),
